@@ -26,6 +26,7 @@ EXPLANATION = (
   ' (TYPESTATE-buffer / TYPESTATE-flush) the tokenizer leaves no state with a non-empty buffer unflushed at end of input or at a state change;'
   ' (FIN-linenum) a line number n >= 0 (0 included) is the offset 100 n / N from the near edge and n < 0 the offset 100 + 100 n / N, evaluated for seven line numbers in both writing directions;'
   " (FIN-cref) in the tokenizer's two reference states the text handed to html.unescape includes the terminating semicolon, so &lrm; / &rlm; are decoded and an unknown reference stays as written;"
+  ' (DEP-relative) the begin of a timestamp span is the timestamp minus the sum of the begins of all its ancestors (begins are parent-relative), so nested timestamps stay correct;'
 )
 RULE_TEXT = "per call site / function / enum / printed sample"
 UNDECIDED = ["cue-setting geometry (line numbers <= 0, position with size)", "tag scoping", "region sharing for equal settings"]
@@ -325,6 +326,35 @@ def check_cref_terminator(ctx):
               f"`{short(c, 50)}` decodes the reference without its terminating `;`: html.unescape leaves `&lrm` / `&rlm` undecoded, and the semicolon of every undecoded reference is lost from the text")
 
 
+def check_timestamp_base(ctx):
+  """DEP-relative: begin times in the model are relative to the parent element.  An inline timestamp
+  `<hh:mm:ss.ttt>` is absolute, so the begin stored on its span is the timestamp minus the absolute
+  begin of the insertion point, i.e. minus the SUM of the begins of all its ancestors.  The ancestor
+  walk in the timestamp handler must therefore visit every ancestor and add up what it finds; a walk
+  that stops at the first ancestor with a begin takes a relative time for an absolute one as soon as
+  a second timestamp is nested in the first."""
+  ix = ctx.ix
+  c = ix.cls("ttconv.vtt.reader:_TextCueParser")
+  ctx.unit(c.module)
+  cands = [m for m in c.methods.values() if any(isinstance(x, ast.Call) and unparse(x.func).endswith("vtt_timestamp_to_secs") for x in own_nodes(m.node))]
+  if len(cands) != 1:
+    raise AnalysisError("the timestamp-tag handler of _TextCueParser was not found")
+  f = cands[0]
+  walks = [lp for lp in own_nodes(f.node) if isinstance(lp, (ast.While, ast.For)) and any(isinstance(x, ast.Call) and isinstance(x.func, ast.Attribute) and x.func.attr == "parent" for x in ast.walk(lp))
+           and any(isinstance(x, ast.Call) and isinstance(x.func, ast.Attribute) and x.func.attr == "get_begin" for x in ast.walk(lp))]
+  if len(walks) != 1:
+    raise AnalysisError(f"{f.qualname}: expected one walk over the ancestors that reads get_begin(), found {len(walks)}")
+  lp = walks[0]
+  stops = [x for x in ast.walk(lp) if isinstance(x, (ast.Break, ast.Return))]
+  sums = [x for x in ast.walk(lp) if (isinstance(x, ast.AugAssign) and isinstance(x.op, ast.Add)) or
+          (isinstance(x, ast.Assign) and isinstance(x.targets[0], ast.Name) and any(isinstance(b, ast.BinOp) and isinstance(b.op, ast.Add) and
+                                                                                    any(isinstance(n, ast.Name) and n.id == x.targets[0].id for n in ast.walk(b)) for b in ast.walk(x.value)))]
+  ctx.check(not stops and bool(sums), "DEP-relative", f"{f.qualname}|a timestamp is made relative to the absolute begin of its parent", ctx.where(f.module, lp),
+            "the ancestor walk adds up every begin it finds",
+            "the walk over the ancestors " + ("stops at the first begin it finds" if stops else "does not add up the begins") +
+            ": that begin is relative to its own parent, so a timestamp nested in another timestamp's span (`a<00:01.500>b<00:01.800>c`) gets a begin that is too late")
+
+
 def run(ctx):
   ix = ctx.ix
   nul.IMPLICATIONS.clear()
@@ -383,4 +413,5 @@ def run(ctx):
   common.check_item_handlers(ctx, ["ttconv.vtt.reader", "ttconv.vtt.tokenizer", "ttconv.utils"])
   check_line_numbers(ctx)
   check_cref_terminator(ctx)
+  check_timestamp_base(ctx)
   common.check_history_independence(ctx, ["ttconv.vtt.reader", "ttconv.vtt.tokenizer", "ttconv.utils"])
